@@ -169,9 +169,14 @@ static item gen_item(hctx* h, int small_domain) {
     case 'l': it.i = small_domain ? (int64_t)h_below(h, 50) - 10 : (int64_t)r; break;
     case 'f': { float x = small_domain ? (float)h_below(h, 40) * 0.5f - 3.0f : 0.0f; uint32_t u;
                 if (small_domain) memcpy(&u, &x, 4); else u = (uint32_t)r;     /* any bit pattern incl. NaN, -0 */
+                { static const uint32_t sp[] = { 0x00000000u, 0x80000000u, 0x7FC00000u, 0xFFC00000u, 0x7F800000u, 0xFF800000u, 0x00000001u, 0x80000001u, 0x7F7FFFFFu };
+                  if (h_chance(h, 1, 5)) u = sp[h_below(h, 9)]; }                /* the special values exactly: the filter hashes the PLAIN bytes, -0.0 is not +0.0 */
                 it.u = u; break; }
     case 'd': { double x = (double)h_below(h, 40) * 0.25 - 2.0; uint64_t u;
                 if (small_domain) memcpy(&u, &x, 8); else u = r;
+                { static const uint64_t sp[] = { 0x0000000000000000ull, 0x8000000000000000ull, 0x7FF8000000000000ull, 0xFFF8000000000000ull, 0x7FF0000000000000ull,
+                                                 0xFFF0000000000000ull, 0x0000000000000001ull, 0x8000000000000001ull, 0x7FEFFFFFFFFFFFFFull };
+                  if (h_chance(h, 1, 5)) u = sp[h_below(h, 9)]; }
                 it.u = u; break; }
     case 'h': it.u = small_domain ? (h_below(h, 8) << 61 | h_below(h, 16)) : r; break;
     default: {
